@@ -363,6 +363,14 @@ func (g *gen) rawExpr(k kind, depth int, class string) string {
 			return g.operand(kStr, depth-1, "infix-left:+") + " + " + g.operand(kAny, depth-1, "infix-right:+")
 		case 2:
 			g.feat("truncate")
+			if g.pct("noopts", 40) {
+				// options map left out: plush supplies one, the helper fills in its defaults
+				g.feat("helper_defaulted_options")
+				if g.pct("tagopts", 50) {
+					return "tagopts(" + g.expr(kStr, depth-1, "go-helper-arg") + ")"
+				}
+				return "truncate(" + g.expr(kStr, depth-1, "go-helper-arg") + ")"
+			}
 			return "truncate(" + g.expr(kStr, depth-1, "go-helper-arg") + `, {"size": ` + g.expr(kInt, 0, "hash-value") + `, "trail": ".."})`
 		case 3:
 			return "(" + g.expr(kStr, depth-1, "grouped") + ")"
